@@ -16,8 +16,8 @@ _SWEEP_RULE = ('HTTP sweep through the real api.NewRouter over the real system c
 PROPS['C38'] = dict(
     target='Props/C38',
     theorems=['C38_total_partial', 'C38_v1_panic_exactly', 'C38_refuted_v1_vars', 'C38_no_effect', 'C38_rejected_before_store'],
-    ties=[dict(name='TIE-C apidec', vh='apidec', model='apidec', n=dict(quick=12000, thorough=400000), kinds=['C38']),
-          dict(name='TIE-D httpsweep', vh='httpsweep', model=None, n=dict(quick=1500, thorough=40000), kinds=['C38'], replayable=False)],
+    ties=[dict(name='TIE-C apidec', vh='apidec', model='apidec', case_head='apidec', n=dict(quick=12000, thorough=400000), kinds=['C38']),
+          dict(name='TIE-D httpsweep', vh='httpsweep', model=None, n=dict(quick=1500, thorough=40000), kinds=['C38'], case_head='http', replayable=False)],
     rule=_APIDEC_RULE + ' || ' + _SWEEP_RULE,
     explanation='PARTIAL. Proved for every JSON tree: the v2 decoders (TransactionRequest + ToCore + Postings.Validate, ScriptV1.ToCore, bulk elements, metadata) never panic (C38_total_partial); a body rejected by the decoder '
                 'performs no store call and any non-success answer leaves all tables unchanged (C38_no_effect, C38_rejected_before_store, on top of the C07 frame theorem). REFUTED for v1 (C38_refuted_v1_vars, '
@@ -35,8 +35,8 @@ PROPS['C38'] = dict(
 PROPS['C36'] = dict(
     target='Props/C36',
     theorems=['C36_decimal_roundtrip', 'C36_volumes_roundtrip', 'C36_posting_amount_exact', 'C36_v1_monetary_exact', 'C36_scriptv1_string_exact', 'C36_scriptv1_number_partial', 'C36_refuted_float'],
-    ties=[dict(name='TIE-C apidec', vh='apidec', model='apidec', n=dict(quick=12000, thorough=400000), kinds=['C36']),
-          dict(name='TIE-D httpsweep', vh='httpsweep', model=None, n=dict(quick=600, thorough=20000), args=dict(all=['-focus', 'amounts']), kinds=['C36'], replayable=False)],
+    ties=[dict(name='TIE-C apidec', vh='apidec', model='apidec', case_head='apidec', n=dict(quick=12000, thorough=400000), kinds=['C36']),
+          dict(name='TIE-D httpsweep', vh='httpsweep', model=None, n=dict(quick=600, thorough=20000), args=dict(all=['-focus', 'amounts']), kinds=['C36'], case_head='amount', replayable=False)],
     rule=_APIDEC_RULE + ' || ' + _SWEEP_RULE,
     explanation='PARTIAL. Proved for ALL n : Z: decimal text round trip (big.Int String/SetString: JSON integers, SQL numeric text, bigint-as-string), Volumes.Value -> PostgreSQL composite I/O -> Volumes.Scan, postings amounts, v1 monetary '
                 'variables, string-form amounts of ScriptV1. The JSON-number form of a monetary (and a bare numeric) variable in vm.ScriptV1.ToCore goes through float64 and int(): exact only below 2^53 (C36_scriptv1_number_partial); '
